@@ -180,6 +180,8 @@ fn judge(case: &Case, determinism: bool, out: &mut CaseOut, want_sample: bool)
 	let cat = catalogue();
 	let files_json = crate::c02::files_json(files);
 	let mut nontrivial = false;
+	// operator chains: (diagnostics of mismatched operands seen, one of them at the planted operator)
+	let mut chain = (0usize, false);
 	for e in &o.raw
 	{
 		let code = e.code();
@@ -258,6 +260,19 @@ fn judge(case: &Case, determinism: bool, out: &mut CaseOut, want_sample: bool)
 									format!("{}: span does not cover the offending name", variant),
 									json!({"files": files_json, "name": name, "covered": covered, "span": [a, b]}),
 								);
+							}
+						}
+					}
+					if case.kind == "operator-chain-fault" && code == 551
+					{
+						if let Some(at_byte) = case.planted_at
+						{
+							let lo = text[..at_byte.min(text.len())].chars().count();
+							let hi = lo + text[at_byte.min(text.len())..].chars().take_while(|c| *c != '\n').count();
+							chain.0 += 1;
+							if lo <= a && a <= hi
+							{
+								chain.1 = true;
 							}
 						}
 					}
@@ -346,6 +361,22 @@ fn judge(case: &Case, determinism: bool, out: &mut CaseOut, want_sample: bool)
 		}
 	}
 	out.nontrivial = nontrivial;
+	// (3b) operands of different types in a chain of operators: the one
+	// operator whose two sides differ is the offending text
+	if case.kind == "operator-chain-fault"
+	{
+		if chain.0 == 0
+		{
+			out.fail("operator chain: operands of different types are not reported as E551", json!({"files": files_json, "codes": o.codes}));
+		}
+		else if !chain.1
+		{
+			out.fail(
+				"operator chain: no E551 starts on the line of the operator whose operands differ",
+				json!({"files": files_json, "expected_line": case.planted_at.map(|at| 1 + files[0].1[..at].matches('\n').count()), "diagnostics": o.summary()}),
+			);
+		}
+	}
 	// (4c) a final newline changes nothing: a file that ends right after its
 	// last token gets the same diagnostics, at the same places, drawn the same
 	// way, as the same file with a newline at the end
@@ -553,6 +584,44 @@ fn expression_fault(c: &mut Choices) -> Case
 	}
 }
 
+/// a chain of one operator, one operand per line, exactly one operand of
+/// another type: E551 belongs to the operator that joins it to the rest
+fn operator_chain_fault(c: &mut Choices) -> Case
+{
+	use crate::ast::{print_program, Layout, Top};
+	let op = *c.pick(&["+", "-", "*", "/", "%", "|", "&", "^"]);
+	let types: &[&str] = if "|&^".contains(op) { &["u8", "u16", "u32", "u64"] } else { &["i8", "i16", "i32", "i64", "u8", "u16", "u32", "u64", "usize"] };
+	let t = types[c.draw(types.len())];
+	let u = types[(types.iter().position(|x| *x == t).unwrap() + 1 + c.draw(types.len() - 1)) % types.len()];
+	let n = 3 + c.draw(4);
+	let k = c.draw(n);
+	let mut text = format!("fn bad_chain() -> {}\n{{\n", t);
+	for i in 0..n
+	{
+		text.push_str(&format!("\tvar chain_operand_{}: {} = 1;\n", i, if i == k { u } else { t }));
+	}
+	text.push_str(&format!("\tvar chain_total: {} = chain_operand_0\n", t));
+	for i in 1..n
+	{
+		text.push_str(&format!("\t\t{} chain_operand_{}\n", op, i));
+	}
+	text.push_str("\t\t;\n\treturn: chain_total\n}");
+	let mut prog = crate::progen::generate(c, crate::progen::Profile::exec());
+	prog.raws.push(text);
+	let at = c.draw(prog.order.len() + 1);
+	prog.order.insert(at, Top::Raw(0));
+	let mut layout = Layout::random(c);
+	layout.comments = 3;
+	let src = print_program(&prog, layout, Some(c));
+	let needle = format!("{} chain_operand_{}", op, k.max(1));
+	let planted_at = src.find(&needle);
+	Case {
+		files: vec![("main.pn".into(), src)],
+		kind: "operator-chain-fault",
+		planted_at,
+	}
+}
+
 /// a generated program with one type-breaking edit (C07's editor)
 fn typed_edit(c: &mut Choices) -> Case
 {
@@ -581,6 +650,7 @@ fn declaration_graph(c: &mut Choices) -> Case
 }
 stream!(DeclarationGraphs, "declaration-graphs", 500, 20_000, 120, 1, declaration_graph);
 stream!(ExpressionFaults, "planted-expression-fault", 8000, 100_000, 1800, 10, expression_fault);
+stream!(OperatorChains, "operator-chains", 3000, 40_000, 1800, 20, operator_chain_fault);
 stream!(TypedEdits, "typed-edits", 8000, 100_000, 1800, 10, typed_edit);
 stream!(SemanticFaults, "planted-semantic-fault", 8000, 100_000, 1800, 10, semantic_fault);
 stream!(ModuleSets, "module-sets", 1500, 30_000, 4000, 2, mutgen::module_set);
@@ -664,6 +734,7 @@ impl Check for C13
 			Box::new(Planted),
 			Box::new(SemanticFaults),
 			Box::new(ExpressionFaults),
+			Box::new(OperatorChains),
 			Box::new(DeclarationGraphs),
 			Box::new(TypedEdits),
 			Box::new(ModuleSets),
